@@ -495,14 +495,29 @@ func (d *Dispatcher) feed(p *peer) {
 }
 
 func (d *Dispatcher) dispatch(p *peer, msg *conn.Message) error {
+	// The body matching the message type is optional on the wire, so a remote peer
+	// may omit it.
+	errNoBody := fmt.Errorf("message of type %s has no body", msg.Message.Type)
 	switch msg.Message.Type {
 	case p2p.Message_ERROR:
+		if msg.Message.Error == nil {
+			return errNoBody
+		}
 		d.handleError(p, msg.Message.Error)
 	case p2p.Message_ANNOUCE_PIECE:
+		if msg.Message.AnnouncePiece == nil {
+			return errNoBody
+		}
 		d.handleAnnouncePiece(p, msg.Message.AnnouncePiece)
 	case p2p.Message_PIECE_REQUEST:
+		if msg.Message.PieceRequest == nil {
+			return errNoBody
+		}
 		d.handlePieceRequest(p, msg.Message.PieceRequest)
 	case p2p.Message_PIECE_PAYLOAD:
+		if msg.Message.PiecePayload == nil || msg.Payload == nil {
+			return errNoBody
+		}
 		d.handlePiecePayload(p, msg.Message.PiecePayload, msg.Payload)
 	case p2p.Message_CANCEL_PIECE:
 		d.handleCancelPiece(p, msg.Message.CancelPiece)
